@@ -49,6 +49,9 @@ TraceNext ==
             /\ Need(\A d \in ToSet(e.dirs) : d # <<>> /\ d[1] # "$ORIGIN" /\ ~IsPrefix(e.builddir, d),
                     "RpathHasNoBuildDirectoryEntries", e.dirs)
             /\ UNCHANGED <<cfg, destdir, expected>>
+       [] e.ev = "Run" ->
+            /\ Need(e.exit = 0, "InstalledProgramStartsWithoutTheBuildDirectory", e.exit)
+            /\ UNCHANGED <<cfg, destdir, expected>>
        [] e.ev = "Uninstall" ->
             /\ Need(e.exit = 0, "UninstallSucceeds", e.exit)
             /\ Need(e.tree = <<>>, "UninstallRemovesEverythingInstalled", e.tree)
